@@ -2,9 +2,9 @@ package rules
 
 import (
 	"fmt"
-	"os"
 	"go/token"
 	"go/types"
+	"os"
 	"strings"
 
 	"golang.org/x/tools/go/ssa"
@@ -62,7 +62,7 @@ func boolSummary(fn *ssa.Function) int {
 			if iff == nil {
 				return 0
 			}
-			c := iff.Cond
+			c := world.CondValue(iff)
 			neg := false
 			if u, ok := c.(*ssa.UnOp); ok && u.Op == token.NOT {
 				c, neg = u.X, true
@@ -190,7 +190,7 @@ func ruleSC(w *world.World, r *report.RuleResult) {
 			if iff == nil || !header.Dominates(b) {
 				return 0
 			}
-			c := iff.Cond
+			c := world.CondValue(iff)
 			neg := false
 			if u, ok := c.(*ssa.UnOp); ok && u.Op == token.NOT {
 				c, neg = u.X, true
@@ -334,7 +334,7 @@ func ruleFC(w *world.World, r *report.RuleResult) {
 				}
 				succs := b.Succs
 				if iff := world.IfOf(b); iff != nil {
-					cnd := iff.Cond
+					cnd := world.CondValue(iff)
 					neg := false
 					if u, ok := cnd.(*ssa.UnOp); ok && u.Op == token.NOT {
 						cnd, neg = u.X, true
